@@ -107,6 +107,14 @@ def syntaxRearrangeArgRefs (terms : Int) (perm : Int → Int) (refs : GoMap Nat 
     (fun e old => if e.2.symbol - terms ≥ 0 then some { e.2 with symbol := terms + perm (e.2.symbol - terms) } else old)
     refs entries
 
+/-- syntax/templates.go `remapArgRefs`: fills a FRESH map from the entries of the old one:
+`for pos, ref := range cmd.CmdArgs.ArgRefs { if sym, ok := syms[pos]; ok { ref.Symbol = sym }; args.ArgRefs[pos] = ref }`
+(`syms` is a local map that is only looked up). -/
+def templatesRemapArgRefs (syms : GoMap Nat Int) (entries : List (Nat × ArgRef)) : GoMap Nat ArgRef :=
+  pointUpdates (fun e => e.1)
+    (fun e _ => some (match syms e.1 with | some sym => { e.2 with symbol := sym } | none => e.2))
+    (fun _ => none) entries
+
 /-- grammar/grammar.go `ActionVars.String`, both loops and the sort:
 `for k, positions := range names { for _, pos := range positions { v, ok := remap[pos]; if !ok {v = -1}; ret = append(ret, fmt(k, v)) } }`
 `for k, v := range remap { ret = append(ret, fmt(k, v)) }; sort.Strings(ret)`.
@@ -123,7 +131,7 @@ def compilerMayBeMissing (actualPos : GoMap Nat Int) (mayBeMissing : GoSet Strin
   condAdds (fun e => e.1) (fun e => e.2.all fun p => (actualPos p).isNone) mayBeMissing names
 
 /-- compiler/compiler.go `addTypes`: `for _, ref := range argRefs { types[ref.Pos] = typeOf(ref.Symbol) }`
-(`typeOf` = `syms[ref.Symbol].Type` or "" for extracted commands). The key written is a FIELD of the value. -/
+(`typeOf` = `syms[ref.Symbol].Type` when `0 ≤ ref.Symbol < len(syms)`, else "": extracted commands). The key written is a FIELD of the value. -/
 def compilerAddTypes {τ : Type} (typeOf : Int → τ) (argRefs : List (Nat × ArgRef)) : GoMap Nat τ :=
   pointUpdates (fun e => e.2.pos) (fun e _ => some (typeOf e.2.symbol)) (fun _ => none) argRefs
 
@@ -192,7 +200,7 @@ inductive Loop
   | lalrMarkerBits | lalrTrieRules | lalrTrieTerms | expandUpdateArgRefs | syntaxRearrangeArgRefs
   | grammarActionVarsString | compilerMayBeMissing | compilerAddTypes
   | compilerPopRuleNames | lexerInlineCustom | lexerTokenComments | sortedKeys | genReverseLookup
-  | genGoImports | shiftdfaPatterns
+  | genGoImports | shiftdfaPatterns | templatesRemapArgRefs
   deriving DecidableEq, Repr
 
 /-- `(xs.map key).Nodup`: what every enumeration of a Go map satisfies for `key = Prod.fst`. -/
@@ -247,5 +255,7 @@ def Loop.OrderIndependent : Loop → Prop
   | .shiftdfaPatterns => ∀ (ρ ψ : Type) (parse : String → Option ρ) (mk : String → ρ → String → ψ)
       (xs ys : List (String × String)), DistinctBy Prod.fst xs →
       xs.Perm ys → Determinism.shiftdfaPatterns parse mk xs = Determinism.shiftdfaPatterns parse mk ys
+  | .templatesRemapArgRefs => ∀ (syms : GoMap Nat Int) (xs ys : List (Nat × ArgRef)), DistinctBy Prod.fst xs →
+      xs.Perm ys → Determinism.templatesRemapArgRefs syms xs = Determinism.templatesRemapArgRefs syms ys
 
 end TmVerif.Determinism
